@@ -164,7 +164,7 @@ def trace_part(prop, insts, V, workdir, samples=3, nproc=None):
                 seen.add("c19first")
             if V.report(dict(clause=clause, site=evname, cls=cfg_class(byid[tid]), retflag="%s/%s" % (evt.get("flag"), evt.get("msgc")),
                              hasproj="yes" if byid[tid].get("proj") else "no", dyksite=str(evt.get("site", "")), exc=("%s: %s" % (evt.get("type"), str(evt.get("text"))[:60])) if evname == "Raise" else "",
-                             retnx=str(evt.get("nx", "")), initrepair=str(t["summary"].get("initrepair", "")), pclass=str(byid[tid].get("pclass", "")), averaging="yes" if byid[tid].get("nsamples", "1") != "1" else "no", what="trace %d event %d (%s): clause %s false" % (tid, l, evname, clause),
+                             retnx=str(evt.get("nx", "")), initrepair=str(t["summary"].get("initrepair", "")), pclass=str(byid[tid].get("pclass", "")), growsafety=str(t["summary"].get("growsafety", "no")), averaging="yes" if byid[tid].get("nsamples", "1") != "1" else "no", what="trace %d event %d (%s): clause %s false" % (tid, l, evname, clause),
                              instance=dict(kind="solver", inst=byid[tid]), window=win, cfg=t["cfg"])):
                 nviol += 1
     outcomes, classes, counts = {}, set(), {}
@@ -715,4 +715,21 @@ def corpus_C19(tier):
         b = dict(inst, id=3 * i + 2, rng_state=987654321, refid=3 * i + 1)
         c = dict(inst, id=3 * i + 3, rng_state=12345, refid=3 * i + 1, warm=True)
         out += [a, b, c]
+    extra = []
+    for j in range(12 if tier == "quick" else 200):
+        # a reduced initial set with the default growing method for m >= n (full-rank interpolation; not documented as random), m == n and m > n
+        nn = int(rng.integers(2, 5))
+        extra.append(dict(corpus.base(rng, 0, prob=corpus._pick(rng, ["nl", "lin"]), n=nn), m=nn + int(rng.integers(0, 2)), growing=int(rng.integers(1, nn)), maxfun=int(rng.integers(15, 45))))
+    for j in range(10 if tier == "quick" else 150):
+        # soft restarts with restarts.max_npt raised but restarts.increase_npt left off: no points may be added
+        nn = int(rng.integers(2, 4))
+        extra.append(dict(corpus.base(rng, 0, prob=corpus._pick(rng, ["nl", "ros3"]), n=nn), restarts="soft", maxunsucc=3, rhoend=1e-2, maxfun=int(rng.integers(60, 120)),
+                          user_params={"restarts.max_npt": nn + 1 + int(rng.integers(1, 4))}))
+    for inst in extra:
+        if inst["prob"] == "ros3":
+            inst.update(n=2, m=2, user_params={"restarts.max_npt": 3 + 2})
+        inst["m"] = max(inst["m"], inst["n"])
+        i = len(out) // 3
+        out += [dict(inst, id=3 * i + 1, rng_state=12345), dict(inst, id=3 * i + 2, rng_state=987654321, refid=3 * i + 1),
+                dict(inst, id=3 * i + 3, rng_state=12345, refid=3 * i + 1, warm=True)]
     return out
